@@ -5,6 +5,12 @@
 -/
 import SympdeModel.Model.Sexp
 import SympdeModel.Model.Exterior
+import SympdeModel.Model.PDeriv
+import SympdeModel.Model.Pattern
+import SympdeModel.Model.BC
+import SympdeModel.Model.Topology
+import SympdeModel.Model.Union
+import SympdeModel.Model.Export
 open Sympde
 
 def dispatch (line : String) : String :=
@@ -14,6 +20,12 @@ def dispatch (line : String) : String :=
   | some (Sexp.atom m :: args) =>
       match m with
       | "C19" => Ext.handle args
+      | "C05" => PD.handle args
+      | "C20" => Pat.handle args
+      | "C18" => BC.handle args
+      | "C13" => Topo.handle args
+      | "C14" => USet.handle args
+      | "C15" => Export.handle args
       | _ => "bad-model"
   | some _ => "bad-line"
 
